@@ -26,8 +26,8 @@ void pump_connection(DBusConnection* c, int max_iter) {
   }
 }
 
-DBusConnection* RawPeer::connect(bool agree_unix_fd) {
-  vclock_activate();
+DBusConnection* RawPeer::connect(bool agree_unix_fd, bool virtual_clock) {
+  if (virtual_clock) vclock_activate();
   int sp[2];
   if (socketpair(AF_UNIX, SOCK_STREAM | SOCK_CLOEXEC, 0, sp) < 0) return nullptr;
   fd = sp[0];
